@@ -233,7 +233,7 @@ func fill(v reflect.Value, s *Schema, r *vh.Rand, depth int, goName string) {
 		}
 		sl := reflect.MakeSlice(v.Type(), n, n)
 		for i := 0; i < n; i++ {
-			fill(sl.Index(i), s.Elem, r, depth+1, "")
+			fill(sl.Index(i), s.Elem, r, depth+1, "elem") // stored lists and maps hold no nil entries
 		}
 		v.Set(sl)
 	case "map":
@@ -247,19 +247,19 @@ func fill(v reflect.Value, s *Schema, r *vh.Rand, depth int, goName string) {
 			k := reflect.New(v.Type().Key()).Elem()
 			k.SetString(randStr(r))
 			e := reflect.New(v.Type().Elem()).Elem()
-			fill(e, s.Elem, r, depth+1, "")
-			for goName == "NodesMap" && s.Elem.K == "ptr" && e.IsNil() { // a node pool holds no nil nodes
-				fill(e, s.Elem, r, depth+1, "")
-			}
+			fill(e, s.Elem, r, depth+1, "elem") // stored lists and maps hold no nil entries
 			m.SetMapIndex(k, e)
 		}
 		v.Set(m)
 	case "ptr":
-		if r.Chance(1, 4) || depth > 6 {
+		if (r.Chance(1, 4) || depth > 6) && goName != "elem" {
 			v.Set(reflect.Zero(v.Type()))
 			return
 		}
 		p := reflect.New(v.Type().Elem())
+		if goName == "elem" {
+			goName = ""
+		}
 		fill(p.Elem(), s.Elem, r, depth+1, goName)
 		v.Set(p)
 	case "struct":
@@ -586,10 +586,13 @@ func main() {
 	if err != nil {
 		panic(err)
 	}
-	var list []*Entry
-	if err := json.Unmarshal(raw, &list); err != nil {
+	var file struct {
+		Entries []*Entry `json:"entries"`
+	}
+	if err := json.Unmarshal(raw, &file); err != nil {
 		panic(err)
 	}
+	list := file.Entries
 	entries = map[string]*Entry{}
 	var names []string
 	for _, e := range list {
@@ -753,7 +756,7 @@ func main() {
 
 	rnd := vh.NewRand(o.Seed)
 	for _, name := range names {
-		for k := 0; k < o.N(2, 6); k++ {
+		for k := 0; k < o.N(1, 4); k++ {
 			doEnc(name, rnd.U64(), true)
 		}
 		for k := 0; k < o.N(6, 60); k++ {
